@@ -549,6 +549,24 @@ def probe_execs(rng, plan, phones):
             c.append(("jsgf", 0, 0, [S(f), S(g), S(b"ten")]))
             c.append(("scan",))
             out.append(ex)
+    # pronunciations far longer than any word of a dictionary file has (20 / 100 / 300 phones): the addition takes
+    # effect and a lookup returns ALL of it
+    for u in (0, 1):
+        f, g, h = fresh_word(rng, plan, taken), fresh_word(rng, plan, taken), fresh_word(rng, plan, taken)
+        ex = Exec("probe-long-pron-u%d" % u, "turtle", "-", [f, g, h, f + b"(2)", b"go", b"ten"], [])
+        S = ex.sid
+        P = lambda n=3: join_phones(rng, rand_pron(rng, phones, n, True))
+        c = ex.cmds
+        c.append(("check",))
+        c.append(("add", S(f), u, P(20)))
+        c.append(("add", S(g), u, P(100)))
+        c.append(("add", S(h), u, P(300)))
+        c.append(("add", S(f + b"(2)"), u, P(120)))
+        c.append(("check",))
+        c.append(("add", S(b"ten"), u, P(3)))
+        c.append(("check",))
+        c.append(("scan",))
+        out.append(ex)
     # where the parenthesis convention begins and ends: "(2)", "w()", "(w)", "w)", "w(x", "x("
     for u in (0, 1):
         f = fresh_word(rng, plan, taken)
